@@ -335,6 +335,23 @@ def run(chk):
         return True, "", ["part indices _%d/_%d, byte offsets _%d/_%d" % (ia, ib, la, lb)]
     chk.ob("C16.R1f:cursors-mirror", "the two sides of the lock-step comparison advance alike (index steps, common-length offsets, resets)", cursors_mirror)
 
+    def with_formatter_stores():
+        """`Part::with_formatter` (what `#[emit::fmt]` expands to) puts the formatter it is given into the hole: on the Hole edge there is a store of
+        `Some(<the parameter>)` through the borrowed formatter slot, and the part returned is `self`."""
+        b = P.body("emit_core::template::Part::<'a>::with_formatter")
+        stores = []
+        for bb, j, st in b.statements(normal_only=True):
+            if st["k"] == "assign" and st["place"].get("p") and st["rv"]["k"] == "use":
+                o = b.origin(st["rv"]["op"])
+                if o[0] == "agg" and o[1].get("variant") == "Some" and o[2] and mir.o_is_param(o[2][0], idx=2):
+                    stores.append(bb)
+        if not stores:
+            return False, "with_formatter never stores Some(formatter) into the hole: format flags written with #[emit::fmt] would be ignored when rendering", [], b.span
+        if not mir.o_is_param(mir.o_root(b.origin(0)), idx=1):
+            return False, "with_formatter returns %s, not the part it was called on" % o_str(b.origin(0)), [], b.span
+        return True, "", [b.span]
+    chk.ob("C16.R4:with_formatter", "Part::with_formatter stores the given formatter in the hole and returns the part", with_formatter_stores)
+
     def cursors():
         eqb = P.body(EQ)
         ok, detail, sites = panics.cursor_pairing(eqb)
